@@ -6,7 +6,7 @@
 
 package protocol
 
-//@ property C08 min-obligations 150
+//@ property C08 min-obligations 170
 
 // ---------------------------------------------------------------------------------------------
 // sizes that decoders and their callers rely on
